@@ -533,12 +533,16 @@ def ancestor_walks(f: Func) -> list[dict]:
     end it with acceptance (`return True`) and every other way out of the loop body (return of anything else, break):
     an enclosing-context test ("is this literal anywhere inside a const item?") must have none of the latter."""
     out = []
-    for loop in [n for n in ast.walk(f.node) if isinstance(n, ast.While)]:
+    for loop in [n for n in ast.walk(f.node) if isinstance(n, (ast.While, ast.For))]:
         steps = [n for n in ast.walk(loop) if isinstance(n, ast.Assign) and isinstance(n.value, ast.Attribute) and n.value.attr == "parent" and isinstance(n.targets[0], ast.Name)
                  and isinstance(n.value.value, ast.Name) and n.value.value.id == n.targets[0].id]
         if not steps:
             continue
         var = steps[0].targets[0].id
+        if isinstance(loop, ast.For):
+            # `for _ in range(N): ... cur = cur.parent`: a climb with a fixed number of steps never reaches the root
+            out.append(dict(loop=loop, var=var, to_root=False, early=[], conditional_step=False, bounded=norm(loop.iter)))
+            continue
         to_root = norm(loop.test) in (f"{var} is not None", var, f"{var} != None")
         early = [n for n in ast.walk(loop) if isinstance(n, ast.Break) or (isinstance(n, ast.Return) and not (isinstance(n.value, ast.Constant) and n.value.value is True))]
         # leaving at the root node kind itself is not "early": nothing is above it
